@@ -11,7 +11,7 @@ from vfw.hspec import B, H, I, bind
 ON = [icontract.InvariantCheckEvent.CALL, icontract.InvariantCheckEvent.SETATTR, icontract.InvariantCheckEvent.ALL]
 STEPS = ["subclass_plain", "subclass_override_pre_post", "subclass_own_invariant", "subclass_override_snapshot_post",
          "class_two_bases", "decorate_fresh_function", "decorate_same_bare_again", "subclass_override_bare",
-         "class_with_mixin_own_invariant"]
+         "class_with_mixin_own_invariant", "subclass_property_new_setter", "subclass_property_new_getter"]
 
 
 class World:
@@ -61,6 +61,16 @@ class World:
             if pre:
                 f = icontract.require(self.cond(name + ".pre", ("x",)), error=self.err(name + ".pre"))(f)
             ns["m"] = f
+        if name == "A":
+            def p_get(self: Any) -> Any:
+                return 1
+
+            def p_set(self: Any, value: Any) -> None:
+                return None
+            g = icontract.ensure(self.cond("A.p.get.post", ("result",)), error=self.err("A.p.get.post"))(p_get)
+            g = icontract.require(self.cond("A.p.get.pre", ("self",)), error=self.err("A.p.get.pre"))(g)
+            st = icontract.ensure(self.cond("A.p.set.post", ("self",)), error=self.err("A.p.set.post"))(p_set)
+            ns["p"] = property(g, st)
         return icontract.DBCMeta(name, bases, ns)
 
     def add_invariant(self, cls: type, on: int) -> type:
@@ -99,6 +109,18 @@ class World:
                 bases = (base, mixin) if k % 2 == 0 else (mixin, base)
                 cls = self.new_class(self.fresh_name("X"), bases, override=False)
                 classes.append(self.add_invariant(cls, on))
+            elif what in ("subclass_property_new_setter", "subclass_property_new_getter"):
+                # re-define only one accessor of the inherited property; the other one is re-used from the base as it is
+                n = self.fresh_name("S")
+                if what == "subclass_property_new_setter":
+                    def new_set(self: Any, value: Any) -> None:
+                        return None
+                    prop = base.p.setter(new_set)
+                else:
+                    def new_get(self: Any) -> Any:
+                        return 2
+                    prop = base.p.getter(new_get)
+                classes.append(icontract.DBCMeta(n, (base,), {"p": prop}))
             elif what == "decorate_fresh_function":
                 n = self.fresh_name("g")
 
@@ -136,6 +158,14 @@ def fingerprint(w: World) -> Tuple[Any, ...]:
                 entry.append(tuple(s.name for s in chk.__postcondition_snapshots__))
         else:
             entry.append("inherits-m")
+        prop = cls.__dict__.get("p")
+        if prop is not None:
+            for acc in (prop.fget, prop.fset):
+                chk = icontract._checkers.find_checker(acc) if acc is not None else None
+                if chk is None:
+                    entry.append("no-checker")
+                else:
+                    entry.append((tuple(_names(g) for g in chk.__preconditions__), _names(chk.__postconditions__)))
         out.append(tuple(entry))
     for f in w.funcs:
         chk = icontract._checkers.find_checker(f)
@@ -150,11 +180,15 @@ def probe(w: World, n_classes: int, n_funcs: int) -> List[Tuple[Any, ...]]:
         w.setup = True
         inst = cls()
         w.setup = False
-        for op in ("call", "setattr"):
+        for op in ("call", "setattr", "prop_get", "prop_set"):
             del w.log[:]
             try:
                 if op == "call":
                     inst.m(1)
+                elif op == "prop_get":
+                    inst.p
+                elif op == "prop_set":
+                    inst.p = 1
                 else:
                     inst.zz = 1
                 out = "ret"
